@@ -791,10 +791,35 @@ func ruleMrg4(c *Ctx) []*Ob {
 			}
 			seg := k.Call.Args[3]
 			okk, n := true, 0
+			// indices at which this function reads a segment of a stack
+			var segIdx []ssa.Value
+			eachInstr(f, func(j ssa.Instruction) {
+				if ia, isIA := j.(*ssa.IndexAddr); isIA {
+					if fv, _ := loadedField(ia.X); fv != nil && fv.Name() == "a" {
+						segIdx = append(segIdx, ia.Index)
+					}
+				}
+			})
 			for _, og := range origins(seg) {
 				n++
 				b, isB := og.(*ssa.BinOp)
 				if !isB || b.Op != token.SUB || !isConstInt(b.Y, 1) {
+					okk = false
+					continue
+				}
+				// ... of the segment that holds the operand: the index the segment was read at, or the cursor's ssIndex
+				holds := false
+				for _, ix := range segIdx {
+					if b.X == ix { // the very value the segment was indexed with (not merely a value it may start from)
+						holds = true
+					}
+				}
+				for _, xo := range origins(b.X) {
+					if fv, _ := loadedField(xo); fv != nil && fv.Name() == "ssIndex" {
+						holds = true
+					}
+				}
+				if !holds {
 					okk = false
 				}
 			}
